@@ -228,6 +228,81 @@ def h_postselect(env, words, pre, post, mq, outcome, n, route):
     env.check_eq(val * prob, num_, f"post-selected expectation[{route}] * P(outcome) == unnormalised branch expectation")
 
 
+def h_postselect2(env, words, outcome, route):
+    """two MEASURE gates separated by gates; every outcome string"""
+    from tangelo.linq import Circuit, Gate
+    n = 2
+    a0, a1, a2 = env.angle("th0"), env.angle("th1"), env.angle("th2")
+    segs = [[("RY", [0], None, a0), ("RX", [1], None, a1), ("CNOT", [1], [0], None)], [("CRY", [0], [1], a2), ("H", [1], None, None)],
+            [("RX", [0], None, a1)]]
+    mqs = [0, 1]
+    gates = []
+    for k, seg in enumerate(segs):
+        gates += [Gate(nm, tg, control=ct, parameter=(pa if pa is not None else "")) for nm, tg, ct, pa in seg]
+        if k < 2:
+            gates.append(Gate("MEASURE", mqs[k]))
+    circ = Circuit(gates, n_qubits=n)
+    op, terms = make_op(env, words)
+    try:
+        b = _backend(env, route)
+        val = b.get_expectation_value(op, circ, desired_meas_result=outcome)
+    finally:
+        _restore()
+    st = R.basis_state(n, 0)
+    prob = None
+    for k, seg in enumerate(segs):
+        for nm, tg, ct, pa in seg:
+            st = R.apply_gate(st, n, nm, tg, ct, pa)
+        if k < 2:
+            st, _ = R.project(st, n, mqs[k], int(outcome[k]))
+    prob = R.inner(st, st)
+    env.check_eq(val * prob, R.expectation(st, n, terms), f"post-selected expectation[{route}] on outcome string {outcome} (times its probability)")
+
+
+def h_freq_mixed(env, word, pre, post, mq, n):
+    """shot-based route on a circuit containing MEASURE, WITH an initial statevector: per term, the distribution handed to the
+    (density-matrix) sampler is the unconditioned Born distribution of the basis-rotated state evolved from that initial state"""
+    from tangelo.linq import Circuit, Gate
+    from tangelo.toolboxes.operators import QubitOperator
+    g1, p1 = build_gates(env, pre)
+    g2, p2 = [], []
+    for i, (name, tg, ct) in enumerate(post):
+        th = env.angle(f"ph{i}") if name in PARAM else ""
+        p2.append(th)
+        g2.append(Gate(name, tg, control=ct if ct else None, parameter=th))
+    circ = Circuit(g1 + [Gate("MEASURE", mq)] + g2, n_qubits=n)
+    op = QubitOperator()
+    c = env.real("c", lo=-2, hi=2)
+    op.terms[tuple(word)] = c
+    psi = env.state(n, "psi", normalized=True)
+    rot = {"X": ("RY", -np.pi / 2), "Y": ("RX", np.pi / 2)}
+    want = [R.C(0) for _ in range(2 ** n)]
+    st = oracle(pre, p1, n, psi)
+    for outcome in (0, 1):
+        proj, _ = R.project(st, n, mq, outcome)
+        st2 = oracle(post, p2, n, proj)
+        for q, p in word:
+            if p in rot:
+                st2 = R.apply_gate(st2, n, rot[p][0], [q], None, rot[p][1])
+        for i, a in enumerate(st2):
+            want[i] = want[i] + a * R.n_conj(a)
+    if env.symbolic:
+        b = make_backend(env, n_shots=1)
+        val = b.get_expectation_value(op, circ, initial_statevector=as_array(env, psi))
+        calls = b.cirq.sampler_calls
+        env.check_true(len(calls) >= 1 and calls[-1]["kind"] == "density_matrix", "density-matrix sampler used")
+        env.check_vec_eq(calls[-1]["probs"], want, f"outcome distribution for term {word} starts from the supplied initial statevector")
+    else:
+        b = make_backend(env, n_shots=400)
+        val = b.get_expectation_value(op, circ, initial_statevector=as_array(env, psi))
+        exact = 0.0
+        for i, p in enumerate(want):
+            par = sum((i >> (n - 1 - q)) & 1 for q, _ in word) % 2
+            exact += (-1) ** par * complex(p).real
+        # 400 shots: |estimate - exact| <= 5 sigma (sigma <= 1/sqrt(400)), a loose statistical sanity bound
+        env.check_le(abs(complex(val).real - c * exact), abs(c) * 0.25 + 1e-9, "sampled estimate is consistent with the exact value from the initial state")
+
+
 def h_oneterm(env, n, keys, word):
     """estimator on arbitrary symbolic frequencies"""
     from tangelo.linq.target.backend import get_expectation_value_from_frequencies_oneterm, get_variance_from_frequencies_oneterm
@@ -366,6 +441,15 @@ def shapes(tier, seed):
             out.append(Shape(f"postselect/{route}/o{outcome}", h_postselect,
                              dict(words=[[(0, "X")], [(0, "Z"), (1, "Z")]], pre=[("RY", [0], []), ("CNOT", [1], [0])],
                                   post=[("RX", [1], [])], mq=0, outcome=outcome, n=2, route=route), modules=MODS))
+    out.append(Shape("freq_mixed/0", h_freq_mixed, dict(word=[(0, "X"), (1, "Z")], pre=[("RY", [0], [])], post=[("CNOT", [1], [0])], mq=0, n=2),
+                     modules=MODS, max_paths=32))
+    out.append(Shape("freq_mixed/1", h_freq_mixed, dict(word=[(1, "Y")], pre=[("H", [1], [])], post=[("RX", [0], [])], mq=1, n=2),
+                     modules=MODS, max_paths=32))
+    # two measurements with gates in between and all four outcome strings
+    for i, route in enumerate(routes):
+        for o in ("00", "01", "10", "11"):
+            out.append(Shape(f"postselect2/{route}/o{o}", h_postselect2,
+                             dict(words=[[(0, "X")], [(1, "Z")], [(0, "Y"), (1, "X")]], outcome=o, route=route), modules=MODS))
     keysets = [["00", "01", "10", "11"], ["01", "10"], ["000", "011", "101", "110", "111"]]
     for i, ks in enumerate(keysets):
         nq = len(ks[0])
